@@ -648,11 +648,12 @@ def battery(repo, side, refs=("a", "b"), light=False):
     """Every query of the property through the public API of one Repo object.  Answers are expressed
     in the model's terms (groups, kinds) so that runs on different directories compare by equality."""
     from dulwich.graph import find_merge_base
-    from dulwich.object_store import MissingObjectFinder, _collect_ancestors, get_depth
+    from dulwich.object_store import MissingObjectFinder, _collect_ancestors, find_shallow, get_depth
     st = repo.object_store
     o2g = side.o2g()
     n = side.n
-    A = {"has": {}, "get": {}, "par": {}, "anc": {}, "mb": {}, "rc": {}, "ro": {}, "miss": {}, "depth": {}}
+    A = {"has": {}, "get": {}, "par": {}, "anc": {}, "mb": {}, "rc": {}, "ro": {}, "miss": {}, "depth": {},
+         "cut": {}, "miss_s": {}, "fshallow": {}, "depth_m": {}}
 
     def objs(shas):
         out = []
@@ -692,6 +693,36 @@ def battery(repo, side, refs=("a", "b"), light=False):
             A["depth"][str(i)] = get_depth(st, c)
         except Exception as e:
             A["depth"][str(i)] = _exc(e)
+    # shallow boundaries (fetch --depth): W = one wanted commit, X = common / haves, S = one boundary commit
+    for wi in (range(max(1, n - 2), n + 1) if light else range(1, n + 1)):
+        wc = side.cid(wi)
+        for d in (1, 2):
+            try:
+                sh, nsh = find_shallow(st, [wc], d)
+                A["fshallow"][f"{wi}|{d}"] = [commits(sh), commits(nsh)]
+            except Exception as e:
+                A["fshallow"][f"{wi}|{d}"] = _exc(e)
+        try:
+            A["depth_m"][str(wi)] = get_depth(st, wc, max_depth=2)
+        except Exception as e:
+            A["depth_m"][str(wi)] = _exc(e)
+        for si in range(1, n + 1):
+            sset = frozenset([side.cid(si)])
+            for X in excl_sets(n):
+                if light and X not in ((), (1,)):
+                    continue
+                xs = [side.cid(i) for i in X]
+                k3 = f"{wi}|{key(X)}|{si}"
+                try:
+                    A["cut"][k3] = commits(_collect_ancestors(st, [wc], frozenset(xs), sset)[0])
+                except Exception as e:
+                    A["cut"][k3] = _exc(e)
+                if light and X:
+                    continue
+                try:
+                    A["miss_s"][k3] = objs(s for s, _ in MissingObjectFinder(st, haves=xs, wants=[wc], shallow=set(sset)))
+                except Exception as e:
+                    A["miss_s"][k3] = _exc(e)
     prov = st.get_reachability_provider()
     A["provider"] = type(prov).__name__
     for H in heads_sets(n):
@@ -706,7 +737,7 @@ def battery(repo, side, refs=("a", "b"), light=False):
             except Exception as e:
                 A["mb"][key(H)] = _exc(e)
         for X in excl_sets(n):
-            if light and X and X[0] in H:
+            if light and X and (X[0] in H or len(H) > 1):
                 continue
             xs = [side.cid(i) for i in X]
             k2 = key(H) + "|" + key(X)
